@@ -618,3 +618,27 @@ def reset():
 def snapshot():
     """Comparable snapshot of the whole registry."""
     return {k: (v.snapshot() if isinstance(v, _Store) else ("raw", bytes(v))) for k, v in FS.items()}
+
+
+def clone_fs():
+    """Deep copy of the registry (for running two continuations from the same on-disk state)."""
+    out = {}
+    for k, v in FS.items():
+        if isinstance(v, _Store):
+            c = _Store(0)
+            c.root, c.ub, c.version, c.mtime = v.root.clone(), bytearray(v.ub), v.version, v.mtime
+            out[k] = c
+        else:
+            out[k] = bytearray(v)
+    return out
+
+
+def restore_fs(snap):
+    FS.clear()
+    for k, v in snap.items():
+        if isinstance(v, _Store):
+            c = _Store(0)
+            c.root, c.ub, c.version, c.mtime = v.root.clone(), bytearray(v.ub), v.version, v.mtime
+            FS[k] = c
+        else:
+            FS[k] = bytearray(v)
